@@ -9,6 +9,9 @@ import PyrollModel.EvalDriver
     clipb two|three <clip index> <k>                      -> bits of `.bounds[k]` of that clip (contour built from env)
     interp two|three <given,given|-> <read,read,...>      -> `name=<bits>` / `name=!AttributeError` ... per read,
                                                              then `# cache=a,b # contour=gap:<bits>`
+    late two|three <look,look,...|-> <given> <read,...>   -> life cycle "dimensioned late": answers of the looks at the bare
+                                                             pass (`contour_lines=ok`) ` # ` answers of the reads after the
+                                                             assignment ` # cache=a,b`
     <formula name> k=<bits> ...                           -> EvalDriver (generated formula table)
 -/
 namespace PassGeomDriver
@@ -48,6 +51,13 @@ def showRes (ρ : String → Float) : Res → String
   | .fuelOut => "!fuel"
   | _ => "!internal"
 
+def probeOf (s : String) : Probe := if s = "contour_lines" then .contour else .hook s
+
+/-- a look: `contour_lines` answers a geometry (shown as `ok`), a hook a number -/
+def showLook (ρ : String → Float) : Res → String
+  | .unit => "ok"
+  | r => showRes ρ r
+
 def pick (cfg : Cfg) (w : String) : Option (PassClass × List (List GOp)) :=
   if w = "two" then some (cfg.twoCls, cfg.twoLines)
   else if w = "three" then some (cfg.threeCls, cfg.threeLines) else none
@@ -85,6 +95,17 @@ def handle (cfg : Cfg) (st : St) (line : String) : St × String :=
         | none => "-"
       (st, " ".intercalate outs ++ " # cache=" ++ (if cache = "" then "-" else cache) ++ " # contour=" ++
         (if con = "" then "+" else con))
+    | none => (st, "bad-op")
+  | ["late", w, looks, given, order] =>
+    match pick cfg w with
+    | some (c, lines) =>
+      let r := lateSession c ((names looks).map probeOf) (names given) (names order)
+      let ρ := finalEnv c lines (envOf fnan st.env) st.contour r.2.2
+      let ls := r.1.map fun x => x.1 ++ "=" ++ showLook ρ x.2
+      let outs := r.2.1.map fun x => x.1 ++ "=" ++ showRes ρ x.2
+      let cache := ",".intercalate (r.2.2.cache.map (·.1))
+      (st, (if ls.isEmpty then "-" else " ".intercalate ls) ++ " # " ++ " ".intercalate outs ++ " # cache=" ++
+        (if cache = "" then "-" else cache))
     | none => (st, "bad-op")
   | _ => (st, EvalDriver.handle cfg.table line)
 
